@@ -237,7 +237,7 @@ func (f *Frame) doUnOp(x *ssa.UnOp) {
 		f.nilCheck(x.X, x.Pos(), "*")
 		lv := f.lvOf(x.X)
 		v := f.setVal(x, f.load(lv, x.Type()))
-		f.loadFacts(v, x.Type())
+		f.loadFactsB(v, x.Type(), f.lvBound(lv))
 	case token.NOT:
 		f.setVal(x, Not(f.val(x.X)))
 	case token.SUB:
@@ -259,12 +259,24 @@ func (f *Frame) doUnOp(x *ssa.UnOp) {
 
 // loadFacts: facts about values read from the heap (references predate the allocation counter).
 func (f *Frame) loadFacts(v T, t types.Type) {
+	f.loadFactsB(v, t, f.alloc())
+}
+
+func (f *Frame) loadFactsB(v T, t types.Type, bound T) {
 	switch t.Underlying().(type) {
 	case *types.Pointer, *types.Map:
-		f.enc.factAbout(v, Le(v, f.alloc()))
+		f.enc.factAbout(v, Le(v, bound))
 	case *types.Slice:
-		f.enc.factAbout(v, Le(SPtr(v), f.alloc()))
+		f.enc.factAbout(v, Le(SPtr(v), bound))
 	}
+}
+
+func (f *Frame) lvBound(lv *LV) T {
+	switch lv.kind {
+	case lvField, lvCell, lvElem, lvGlobal:
+		return f.boundOf(f.stGet(lv.arr, lv.asort))
+	}
+	return f.alloc()
 }
 
 func (f *Frame) wrapIf(t T, ty types.Type, pos token.Pos) T {
